@@ -5,7 +5,7 @@
 From Coq Require Import Permutation.
 From LP Require Import Proofs.Tactics Proofs.Loop Proofs.Resume Proofs.FisherYates Proofs.Shuffle Proofs.Rng Proofs.Select
   Proofs.Gates Proofs.Frames Proofs.Confirm Proofs.Settle Proofs.Filter Proofs.Ledger Proofs.ClaimLedger Proofs.Partition Proofs.Lifecycle Proofs.Setup
-  Proofs.Interleave.
+  Proofs.Interleave Proofs.InterleaveGt Proofs.Guaranteed Proofs.GuaranteedLoop Proofs.Leftover.
 Open Scope N_scope.
 
 Lemma ClaimInv_Uw su cs w A : ClaimInv w A -> ClaimInv (Uw su cs w) A.
@@ -37,6 +37,51 @@ End Transport.
 Section HNoisyLife.
 Variable H : list N -> list N.
 
+Lemma noisy_two_stages w0 wf ef bf w1' ws es bs w2' sd rest :
+  paused (st w0) = false -> open_flags w0 ->
+  noisy filter_tickets w0 wf -> filter_tickets ef bf wf = Ok (w1', 0) ->
+  seeds w1' = sd :: rest ->
+  noisy (select_winners H) w1' ws -> select_winners H es bs ws = Ok (w2', 0) ->
+  exists lf wq w1 ls wq2 w2 su cs,
+    after_interrupted filter_tickets lf w0 = Some wq /\ filter_tickets ef bf wq = Ok (w1, 0) /\
+    seeds w1 = sd :: rest /\
+    after_interrupted (select_winners H) ls w1 = Some wq2 /\ select_winners H es bs wq2 = Ok (w2, 0) /\
+    w2' = Uw su cs w2 /\ paused (st w2) = false.
+Proof.
+  intros Hp0 Hf0 Hnf Ef Hseeds Hns Es.
+  destruct (filter_noisy_complete w0 wf ef bf w1' 0 Hnf Hp0 Hf0 Ef) as (lf & wq & su1 & cs1 & w1 & Haf & Ef1 & Hw1).
+  destruct (filter_tickets_tf _ _ _ _ _ Ef1) as (Ht1 & Hs1 & Ha1 & _).
+  assert (Hq : paused (st wq) = false /\ open_flags wq).
+  { clear - Haf Hp0 Hf0. revert w0 Haf Hp0 Hf0. induction lf as [|[e b] lf IH]; intros w0 Haf Hp0 Hf0; cbn in Haf.
+    - inversion Haf; subst. auto.
+    - destruct (filter_tickets e b w0) as [[wx x]|] eqn:E; [|discriminate]. destruct x as [|px]; [discriminate|]. destruct px; try discriminate.
+      destruct (filter_tickets_tf _ _ _ _ _ E) as (Ht & Hs & Ha & _).
+      apply (IH wx Haf); [rewrite (terms_paused _ _ Ht); exact Hp0 | unfold open_flags in *; rewrite Hs, Ha; exact Hf0]. }
+  destruct Hq as [Hpq Hfq].
+  assert (Hp1 : paused (st w1) = false) by (rewrite (terms_paused _ _ Ht1); exact Hpq).
+  assert (Hf1 : open_flags w1) by (unfold open_flags in *; rewrite Hs1, Ha1; exact Hfq).
+  subst w1'.
+  assert (Hp1' : paused (st (Uw su1 cs1 w1)) = false) by exact Hp1.
+  assert (Hf1' : open_flags (Uw su1 cs1 w1)) by exact Hf1.
+  destruct (select_noisy_complete H _ ws es bs w2' 0 Hns Hp1' Hf1' Es) as (ls & wq2 & su2 & cs2 & w2p & Has & Es2 & Hw2).
+  destruct (after_interrupted_Uw (select_winners H) (fun su cs e b w Hf => select_winners_U H su cs e b w Hf)
+              ltac:(intros e b w wx E Hf; destruct (select_winners_tf H _ _ _ _ _ E) as (_ & _ & Ha & _ & Hs);
+                    unfold open_flags in *; rewrite (Hs ltac:(discriminate)), Ha; exact Hf)
+              su1 cs1 ls w1 wq2 Hf1 Has) as (wq20 & Has0 & Hq2 & Hfq2).
+  subst wq2. rewrite (select_winners_U H su1 cs1 es bs wq20 Hfq2) in Es2.
+  destruct (select_winners H es bs wq20) as [[w2 x2]|] eqn:Es0; [|discriminate]. cbn in Es2. inversion Es2; subst w2p x2; clear Es2.
+  subst w2'. rewrite Uw_Uw.
+  exists lf, wq, w1, ls, wq20, w2, su2, cs2. repeat split; auto.
+  (* the selection chain keeps the pause flag *)
+  destruct (select_winners_tf H _ _ _ _ _ Es0) as (Ht2 & _).
+  rewrite (terms_paused _ _ Ht2).
+  clear - Has0 Hp1. revert w1 Has0 Hp1. induction ls as [|[e b] ls IH]; intros w1 Has0 Hp1; cbn in Has0.
+  - inversion Has0; subst. exact Hp1.
+  - destruct (select_winners H e b w1) as [[wx x]|] eqn:E; [|discriminate]. destruct x as [|px]; [discriminate|]. destruct px; try discriminate.
+    destruct (select_winners_tf H _ _ _ _ _ E) as (Ht & _).
+    apply (IH wx Has0). rewrite (terms_paused _ _ Ht). exact Hp1.
+Qed.
+
 Theorem pipeline_noisy l w0 wf ef bf w1' ws es bs w2' sd rest :
   PreSel w0 l -> paused (st w0) = false -> open_flags w0 ->
   noisy filter_tickets w0 wf -> filter_tickets ef bf wf = Ok (w1', 0) ->
@@ -53,36 +98,53 @@ Theorem pipeline_noisy l w0 wf ef bf w1' ws es bs w2' sd rest :
     claimable_payment (st w2) = price (st w0) * k.
 Proof.
   intros Hpre Hp0 Hf0 Hnf Ef Hseeds Hns Es.
-  (* the filter *)
-  destruct (filter_noisy_complete w0 wf ef bf w1' 0 Hnf Hp0 Hf0 Ef) as (lf & wq & su1 & cs1 & w1 & Haf & Ef1 & Hw1).
-  destruct (filter_tickets_tf _ _ _ _ _ Ef1) as (Ht1 & Hs1 & Ha1 & _).
-  (* the filter chain keeps the pause flag and the open flags *)
-  assert (Hq : paused (st wq) = false /\ open_flags wq).
-  { clear - Haf Hp0 Hf0. revert w0 Haf Hp0 Hf0. induction lf as [|[e b] lf IH]; intros w0 Haf Hp0 Hf0; cbn in Haf.
-    - inversion Haf; subst. auto.
-    - destruct (filter_tickets e b w0) as [[wx x]|] eqn:E; [|discriminate]. destruct x as [|px]; [discriminate|]. destruct px; try discriminate.
-      destruct (filter_tickets_tf _ _ _ _ _ E) as (Ht & Hs & Ha & _).
-      apply (IH wx Haf); [rewrite (terms_paused _ _ Ht); exact Hp0 | unfold open_flags in *; rewrite Hs, Ha; exact Hf0]. }
-  destruct Hq as [Hpq Hfq].
-  assert (Hp1 : paused (st w1) = false) by (rewrite (terms_paused _ _ Ht1); exact Hpq).
-  assert (Hf1 : open_flags w1) by (unfold open_flags in *; rewrite Hs1, Ha1; exact Hfq).
-  subst w1'.
-  (* the selection, first on the transformed world, then transported to the plain one *)
-  assert (Hp1' : paused (st (Uw su1 cs1 w1)) = false) by exact Hp1.
-  assert (Hf1' : open_flags (Uw su1 cs1 w1)) by exact Hf1.
-  destruct (select_noisy_complete H _ ws es bs w2' 0 Hns Hp1' Hf1' Es) as (ls & wq2 & su2 & cs2 & w2p & Has & Es2 & Hw2).
-  destruct (after_interrupted_Uw (select_winners H) (fun su cs e b w Hf => select_winners_U H su cs e b w Hf)
-              ltac:(intros e b w wx E Hf; destruct (select_winners_tf H _ _ _ _ _ E) as (_ & _ & Ha & _ & Hs);
-                    unfold open_flags in *; rewrite (Hs ltac:(discriminate)), Ha; exact Hf)
-              su1 cs1 ls w1 wq2 Hf1 Has) as (wq20 & Has0 & Hq2 & Hfq2).
-  subst wq2. rewrite (select_winners_U H su1 cs1 es bs wq20 Hfq2) in Es2.
-  destruct (select_winners H es bs wq20) as [[w2 x2]|] eqn:Es0; [|discriminate]. cbn in Es2. inversion Es2; subst w2p x2; clear Es2.
-  subst w2'. rewrite Uw_Uw.
-  assert (Hseeds1 : seeds w1 = sd :: rest) by exact Hseeds.
-  destruct (pipeline_to_claims H l w0 lf wq ef bf w1 ls wq20 es bs w2 sd rest Hpre Haf Ef1 Hseeds1 Has0 Es0)
+  destruct (noisy_two_stages w0 wf ef bf w1' ws es bs w2' sd rest Hp0 Hf0 Hnf Ef Hseeds Hns Es)
+    as (lf & wq & w1 & ls & wq2 & w2 & su & cs & Haf & Ef1 & Hs1 & Has & Es1 & Hw2 & _).
+  destruct (pipeline_to_claims H l w0 lf wq ef bf w1 ls wq2 es bs w2 sd rest Hpre Haf Ef1 Hs1 Has Es1)
     as (Hci & Hlay & Hlast & Hnw & Hst & Hnd & Hcp & _).
-  exists su2, cs2, w2. split; [reflexivity|]. split; [apply ClaimInv_Uw; exact Hci|].
+  exists su, cs, w2. split; [exact Hw2|]. split; [rewrite Hw2; apply ClaimInv_Uw; exact Hci|].
   cbn zeta. auto 10.
+Qed.
+
+(** the guaranteed-ticket contracts: noise also between the calls of the distribution step (where the
+    v1 family does not even look at the pause flag) *)
+Lemma ClaimInv_Tw su cs p w A : ClaimInv w A -> ClaimInv (Tw su cs p w) A.
+Proof.
+  intros Hi. eapply ClaimInv_same_ledger; [exact Hi|..]; unfold Tw, T, U; rewrite ?st_set_st, ?bal_set_st; try reflexivity.
+Qed.
+
+Theorem pipeline_gt_noisy v2 l w0 wf ef bf w1' ws es bs w2' sd rest wd ed bd w3' :
+  PreSel w0 l -> NoDup (gt_users (st w0)) -> paused (st w0) = false -> fl_additional (st w0) = false ->
+  noisy filter_tickets w0 wf -> filter_tickets ef bf wf = Ok (w1', 0) ->
+  seeds w1' = sd :: rest ->
+  noisy (select_winners H) w1' ws -> select_winners H es bs ws = Ok (w2', 0) ->
+  noisyT (distribute_guaranteed_tickets H v2) w2' wd -> distribute_guaranteed_tickets H v2 ed bd wd = Ok (w3', 0) ->
+  exists su cs p w2 w3,
+    w3' = Tw su cs p w3 /\ ClaimInv w3' (map fst l) /\
+    dist_result v2 (st w2) (st w3) /\
+    (forall u, In u (gt_users (st w2)) -> owed v2 (st w2) u <= own_winning (st w2) (st w3) u) /\
+    (forall t, status (st w2) t = true -> status (st w3) t = true).
+Proof.
+  intros Hpre Hndg Hp0 Hadd0 Hnf Ef Hseeds Hns Es Hnd Ed.
+  assert (Hf0 : open_flags w0) by (unfold open_flags; rewrite Hadd0; apply andb_false_r).
+  destruct (noisy_two_stages w0 wf ef bf w1' ws es bs w2' sd rest Hp0 Hf0 Hnf Ef Hseeds Hns Es)
+    as (lf & wq & w1 & ls & wq2 & w2 & su & cs & Haf & Ef1 & Hs1 & Has & Es1 & Hw2 & Hp2).
+  assert (Hf2 : open_flags w2).
+  { pose proof Hpre as [Hop0 _ _ _ _ _ _ _].
+    assert (Hfok : filter_op_ok (st w0)) by (unfold filter_op_ok; rewrite Hop0; exact I).
+    pose proof Ef1 as Ef1'. rewrite (filter_multi_resume lf w0 wq ef bf Hfok Haf) in Ef1'.
+    destruct (filter_tickets_only _ _ _ _ Ef1') as ((rg & ba & nw & la & fs & Hst1) & _).
+    pose proof Es1 as Es1'. rewrite (select_multi_resume H ls w1 wq2 es bs Has) in Es1'.
+    assert (Hop1 : op (st w1) = OpNone) by (rewrite Hst1; reflexivity).
+    destruct (select_winners_only H _ _ _ _ Hop1 Es1') as ((f2 & g2 & Hst2) & _).
+    unfold open_flags. rewrite Hst2, Hst1. cbn. rewrite Hadd0. reflexivity. }
+  (* the distribution: noisy from w2' = Tw .. w2 *)
+  assert (Hwa : w2' = Tw su cs (paused (st w2)) w2) by (rewrite Hw2; apply Uw_as_Tw).
+  destruct (distribute_noisy_complete H v2 w2' w2 _ _ _ wd ed bd w3' 0 Hnd Hwa (fun _ => Hp2) Hf2 Ed)
+    as (ld & wqd & su3 & cs3 & p3 & w3 & Had & Ed1 & Hw3).
+  destruct (pipeline_gt H v2 l w0 lf wq ef bf w1 ls wq2 es bs w2 sd rest ld wqd ed bd w3 Hpre Hndg Haf Ef1 Hs1 Has Es1 Had Ed1)
+    as (Hci & Hres & Hhon & Hmono).
+  exists su3, cs3, p3, w2, w3. split; [exact Hw3|]. split; [rewrite Hw3; apply ClaimInv_Tw; exact Hci|]. auto.
 Qed.
 End HNoisyLife.
 
